@@ -40,6 +40,7 @@ def run(ctx):
         (5, C.gen_timeout),
         (3, C.gen_shared_expiry),
         (2, C.gen_shared_group_expiry),
+        (2, C.gen_dash),
         (4, C.gen_group),
         (1, lambda r: C.gen_mixed(r, C.W_MIXED, nblocks=r.randrange(4, 10))),
         (1, C.gen_hub),
